@@ -58,6 +58,9 @@ type childResult struct {
 	Items []string `json:"items,omitempty"`
 	Count int64    `json:"count"`
 	Store string   `json:"store,omitempty"` // result of StoreToDisk in a store child: "nil" or the error
+	// close-race children: Close() returned before a backup that went on to succeed; allocator ledger
+	CloseEarly bool   `json:"close_early,omitempty"`
+	Ledger     string `json:"ledger,omitempty"`
 }
 
 func diskConfig(cmp int, delta bool) nitro.Config {
@@ -108,6 +111,10 @@ func childStore(casePath, dir string, budget int64) {
 	installCounterHook()
 	in := c.DB
 	in.Delta = c.Delta
+	if budget == -2 {
+		childStoreCloseRace(&c, dir)
+		return
+	}
 	e := mvReplay(&in)
 	snap := e.snaps[uint32(c.Sn)]
 	snap.Open()
@@ -124,6 +131,82 @@ func childStore(casePath, dir string, budget int64) {
 		res.Store = "nil"
 	} else {
 		res.Store = serr.Error()
+	}
+	out, _ := json.Marshal(&res)
+	os.Stdout.Write(out)
+}
+
+// childStoreCloseRace: user-managed memory on the guard allocator, delta interleaving. Close() is
+// called while StoreToDisk stands in its set-up (blocked on the manifest, which is a FIFO here, after
+// it has given up its snapshot reference). Close() must wait for the running backup: if it returns
+// first it has freed every block the scan is about to walk (the child then dies with a fault).
+func childStoreCloseRace(c *diskCase, dir string) {
+	in := c.DB
+	in.MM = true
+	in.Delta = true
+	e := mvReplay(&in)
+	snap := e.snaps[uint32(c.Sn)]
+	snap.Open()
+	// only the backup's own reference stays: Close() waits for every other open handle
+	for sn, n := range e.ref.snapRef {
+		for ; n > 0; n-- {
+			e.snaps[sn].Close()
+		}
+		e.ref.snapRef[sn] = 0
+	}
+	os.MkdirAll(dir, 0755)
+	fifo := filepath.Join(dir, "nitro.json")
+	if err := syscall.Mkfifo(fifo, 0660); err != nil {
+		panic(err)
+	}
+	type tres struct {
+		err error
+		at  time.Time
+	}
+	storeDone := make(chan tres, 1)
+	go func() {
+		err := e.db.StoreToDisk(dir, snap, c.Conc, nil)
+		storeDone <- tres{err, time.Now()}
+	}()
+	time.Sleep(150 * time.Millisecond)
+	closeDone := make(chan time.Time, 1)
+	go func() {
+		e.db.Close()
+		closeDone <- time.Now()
+	}()
+	time.Sleep(150 * time.Millisecond)
+	go func() { // release the backup: read the manifest off the FIFO
+		if f, err := os.OpenFile(fifo, os.O_RDONLY, 0); err == nil {
+			io.Copy(io.Discard, f)
+			f.Close()
+		}
+	}()
+	var res childResult
+	var st tres
+	select {
+	case st = <-storeDone:
+	case <-time.After(20 * time.Second):
+		res.Store = "hang"
+	}
+	if res.Store == "" {
+		if st.err == nil {
+			res.Store = "nil"
+		} else {
+			res.Store = st.err.Error()
+		}
+		select {
+		case ct := <-closeDone:
+			res.CloseEarly = st.err == nil && ct.Before(st.at)
+		case <-time.After(20 * time.Second):
+			res.Ledger = "Close() did not return within 20s after the backup had finished"
+		}
+	}
+	if e.arena != nil && res.Ledger == "" {
+		if len(e.arena.BadFrees) > 0 {
+			res.Ledger = "allocator misuse: " + strings.Join(e.arena.BadFrees, "; ")
+		} else if l := e.arena.Live(); len(l) > 0 && res.Store != "hang" {
+			res.Ledger = fmt.Sprintf("%d blocks were never returned after Close()", len(l))
+		}
 	}
 	out, _ := json.Marshal(&res)
 	os.Stdout.Write(out)
@@ -854,6 +937,24 @@ func diskStoreRun(a runArgs, sink *CaseSink) error {
 			}(i, b)
 		}
 		wg.Wait()
+		// (iii) Close() racing a backup in its set-up (user-managed memory, delta interleaving)
+		{
+			rdir := filepath.Join(dtmp, "closerace")
+			sres, fail := runChild(60*time.Second, "child-store", "-case", casePath, "-dir", rdir, "-budget", "-2")
+			cc := c
+			cc.Budget = -2
+			cc.Fault = "Close() called while StoreToDisk (user-managed memory, delta interleaving) stands in its set-up"
+			idx := sink.Add(fmt.Sprintf("(* close race db %d *)", dbi), cc, "close-race", true)
+			switch {
+			case fail != "":
+				sink.Fail(idx, "Close() during a running backup under the guard allocator: "+fail, "c04-close-during-backup", cc)
+			case sres.CloseEarly:
+				sink.Fail(idx, "Close() returned while a backup that went on to succeed was still running (with user-managed memory it has freed the store under the scan)", "c04-close-during-backup", cc)
+			case sres.Ledger != "":
+				sink.Fail(idx, "Close() during a running backup: "+sres.Ledger, "c04-close-during-backup", cc)
+			}
+			os.RemoveAll(rdir)
+		}
 	}
 	return nil
 }
